@@ -42,7 +42,7 @@ def zero_length_bitmap(beh):
                 j = i + 1
                 if j < len(labs) and labs[j] == '236000':
                     j += 1
-                if j < len(labs) and labs[j].startswith('0310') and not any(ents[j]['v'][0]['raw']):
+                if j < len(labs) and labs[j] in ('031000', '031001', '031002') and not any(ents[j]['v'][0]['raw']):
                     return True
     return False
 
@@ -123,7 +123,7 @@ def run(run):
         r = seed() % 5
         nvac = 0
         groups = [('plain', cat['plain'], dict(subset_counts=(1, 2), seeds=(r,))),
-                  ('struct', cat['struct'], dict(subset_counts=(1, 2), seeds=((r + 1) % 5,), fmax=3 if thorough else 2)),
+                  ('struct', cat['struct'], dict(subset_counts=(1, 2), seeds=((r + 1) % 5,), fmax=2)),
                   ('bitmap', cat['bitmap'], dict(subset_counts=(1, 2) if thorough else (1,), seeds=((r + 2) % 5,), fmax=2)),
                   ('open', cat['open'], dict(subset_counts=(2,), seeds=((r + 3) % 5,), fmax=2))]
         rq = catalogue.catalogue(run.tier, seed())          # grammar-derived templates of this seed (vf/gen.py)
